@@ -25,6 +25,10 @@ CHECKS = {
    text="Bounded symbolic model checking of trackWrite/getRangeToRead with go-immutable-radix run from source: all sequences of 3 (thorough 4) writes with offset 0..200, length 1..55 and all probe offsets/lengths, plus one inductive step from an arbitrary valid pre-state of up to 3 disjoint ranges (covers histories of any length within that footprint); oracle = union of written ranges; also that the marker representation invariant is preserved.",
    note="Trusted: go/ssa, gosmt interpreter (natively cross-validated), sync.Mutex model. Outside: offsets >= 256 (multi-byte key divergence in the radix tree), negative offsets, zero-length writes, more than 3 pre-existing ranges in the step harness.",
    design="DESIGN.md §6 C22"),
+ "C07": dict(
+   text="Bounded symbolic model checking of the real listing pipelines end to end (ListRepos, ListBundles, ListBundlesApply, ListLabels, ListLabelsApply, ListDiamonds, ListSplits with fetchKeys, basenameKeyFilter, mergeKeys, distributeKeys, fetch*Batch, get*Async, the descriptor downloads and sort.Sort on the model slices) over an in-memory object store: repositories {a, a-b, ab, b} in every combination; in repo r (next to r2, whose name extends it) three bundles each absent / committed / leftover of an interrupted upload, three labels in every combination, two diamonds each absent / running / running+done, the first with two splits (one named split-2) each absent / running / running+done and each with two split file lists - for every page size from 1 to the number of keys + 1 and list concurrency 1..2 the result is exactly the existing objects of that kind and repository, each once, a bundle without descriptor is skipped, diamonds and splits come back in their latest state, bundles in key order. Known findings C07-F2, C07-F3 (order of labels / prefix-named repositories).",
+   note="Trusted: go/ssa, gosmt interpreter (natively cross-validated), cooperative goroutine/channel model (one schedule), yaml.v2 as round-tripping opaque documents, in-memory store with GCS listing semantics. Outside: more objects than the stated universe, page sizes above it, concurrency above 2, versioned label listing, interruption through the done channel.",
+   design="DESIGN.md §6 C07"),
  "C11": dict(
    text="Bounded symbolic model checking of the real diamond merge (Diamond.mergeSplits with its merger goroutine, fileIndex.Download/unpack/downloadAll/downloadIndex, mergeEntryToFilePacked, GenerateConflictPath/GenerateCheckpointPath, go-immutable-radix from source) against a reference written from the statement: 2 splits x 2 paths with symbolic presence, symbolic 1-byte content hashes and symbolic distinct upload seconds, and 3 splits x 1 path (split k uploaded at second k), in all 4 conflict modes and for every arrival order of the split index files - the main tree holds exactly the uploaded paths with the latest version of each, conflict/checkpoint mode files every other distinct version under .conflicts|.checkpoints/<uploading split>/<path> with that split's content and nothing else, ignore mode adds nothing, forbid mode fails iff two splits disagree on a path, and the HasConflicts/HasCheckpoints flags match. Thorough adds 3 splits x 2 paths with one index file per (split, path). Known finding C11-F1.",
    note="Trusted: go/ssa, gosmt interpreter (natively cross-validated), cooperative goroutine/channel model with file-list download concurrency 1 (arrival order = the solver-chosen permutation), yaml.v2 as round-tripping opaque documents, in-memory metadata store. Outside: more than 3 splits, equal upload times, the single-split == plain upload clause, fileIndex.pack's time stamping, implCommit around the merge.",
